@@ -60,6 +60,18 @@ def readsK (acc : List (Option Nat)) : Bool :=
   | [some x] => decide (x > 0)
   | _ => true
 
+/-! ### composite parameter values (`parameter.Value[[]int]`, `[struct{A,B int}]`, `[map[string]int]`):
+    the model keeps the canonical code `enc` of the value, the harness prints `enc(param.Value())` -/
+
+def encList (es : List Nat) : Nat :=
+  ((es.foldl (fun h e => (h * 31 + 17 + e) % M) 7) * 31 + es.length) % M
+
+def encStruct (a b : Nat) : Nat := (((5 * 31 + 19 + a) % M) * 31 + 23 + b) % M
+
+/-- pairs `(key index, value)` in increasing key order -/
+def encMap (kvs : List (Nat × Nat)) : Nat :=
+  ((kvs.foldl (fun h kv => (((h * 31 + 29 + kv.1) % M) * 31 + kv.2) % M) 11) * 31 + kvs.length) % M
+
 /-! ### parsing -/
 
 abbrev P := StateT (List String) Option
@@ -94,11 +106,29 @@ def pWiring : P (List (Option Nat) × List (List Nat)) := do
   let ar ← pList (pList pNat)
   pure (sc, ar)
 
+def pPair : P (Nat × Nat) := do let a ← pNat; let b ← pNat; pure (a, b)
+
 def pNode : P (Node Nat) := do
   let t ← tok
   if t == "P" || t == "Q" then
     let v ← pNat
     pure (.param v 0)
+  else if t == "QL" then
+    let es ← pList pNat
+    pure (.param (encList es) 0)
+  else if t == "QS" then
+    let a ← pNat; let b ← pNat
+    pure (.param (encStruct a b) 0)
+  else if t == "QM" then
+    let kvs ← pList pPair
+    pure (.param (encMap kvs) 0)
+  else if t == "E" then
+    -- adapter node of the harness: returns enc(value) of the composite parameter it is wired to;
+    -- the model's parameter value already is that code, so the node is the identity
+    let _salt ← pNat
+    let w ← pWiring
+    pure (.struct { fn := fun _ _ ovs => (ovs.headD none).getD 0, scalars := w.1, arrays := w.2, cache := 0,
+                    version := 0, remembered := none, flag := false })
   else if t == "S" then
     let salt ← pNat
     let w ← pWiring
@@ -120,6 +150,14 @@ def pOp : P (Op Nat) := do
   | "aa" => do let i ← pNat; let a ← pNat; let s ← pNat; pure (.arrayAdd i a s)
   | "ar" => do let i ← pNat; let a ← pNat; let x ← pNat; pure (.arrayRemove i a x)
   | "rd" => do let i ← pNat; pure (.read i)
+  -- accepted messages to composite parameters REPLACE the value
+  | "sl" => do let p ← pNat; let es ← pList pNat; pure (.setParam p (encList es))
+  | "so" => do
+      let p ← pNat; let fa ← pNat; let a ← pNat; let fb ← pNat; let b ← pNat
+      pure (.setParam p (encStruct (if fa == 1 then a else 0) (if fb == 1 then b else 0)))
+  | "sm" => do let p ← pNat; let kvs ← pList pPair; pure (.setParam p (encMap kvs))
+  -- a message the decoder rejects (malformed / wrong type / partially valid): nothing is written
+  | "sb" => do let p ← pNat; let _kind ← pNat; pure (.rejectedMessage p)
   | _ => failure
 
 structure Case where
@@ -147,7 +185,7 @@ structure Block where
 
 def pBlock (N : Nat) : P Block := do
   let st ← tok
-  let ok ← (if st == "ok" then pure true else if st == "panic" then pure false else failure : P Bool)
+  let ok ← (if st == "ok" then pure true else if st == "panic" || st == "rej" then pure false else failure : P Bool)
   let t ← tok
   let r ← (if t == "r" then do
               let a ← pNat; let b ← pNat; expect "v"; pure (some (a, b))
@@ -194,6 +232,7 @@ def stepBlock (arr : Array (Node Nat)) (op : Op Nat) : Array (Node Nat) × Strin
         let a2 := toArr N g2
         let v2 := val (ofArr a2) i
         (a2, s!"ok r {v1} {v2} {observe a2} {idsStr "x" (l1.map (·.1))} {idsStr "y" (l2.map (·.1))} |")
+  | .rejectedMessage _ => (arr, s!"rej {observe arr} x 0 y 0 |")
   | op =>
     match step? (arr.size+1) (ofArr arr) op with
     | none => (arr, s!"panic {observe arr} x 0 y 0 |")
@@ -355,6 +394,10 @@ def pCaseBlocks : P (Case × List Block) := do
 def handle (op : String) (args : List String) : Option String :=
   match op with
   | "c11.hist" => do
+    let (c, rest) ← pCase.run args
+    if rest.isEmpty && !c.hasK then pure (runHist c) else none
+  | "c11.msg.hist" => do
+    -- messages through parameter.Value.ApplyMessage (composite types, rejected / partial messages)
     let (c, rest) ← pCase.run args
     if rest.isEmpty && !c.hasK then pure (runHist c) else none
   | "c11.skip.hist" => do
